@@ -369,7 +369,7 @@ func (b *TableColumnGroupBox) span() int {
 	if len(b.Children) != 0 {
 		return len(b.Children)
 	}
-	return integerAttribute(utils.HTMLNode(*b.Element).Get("span"), 1)
+	return integerAttribute(utils.HTMLNode(*b.Element).Get("span"), 1, maxColspan)
 }
 
 // Return cells that originate in the group's columns.
@@ -390,12 +390,12 @@ func NewTableColumnBox(style pr.ElementStyle, element *html.Node, pseudoType str
 }
 
 func (b *TableColumnBox) span() int {
-	return integerAttribute(utils.HTMLNode(*b.Element).Get("span"), 1)
+	return integerAttribute(utils.HTMLNode(*b.Element).Get("span"), 1, maxColspan)
 }
 
-// Read an integer attribute from the HTML element.
+// Read an integer attribute from the HTML element, clamped to [minimum, maximum].
 // If is invalid, it default to 1
-func integerAttribute(attr string, minimum int) int {
+func integerAttribute(attr string, minimum, maximum int) int {
 	value := strings.TrimSpace(attr)
 	intValue, err := strconv.Atoi(value)
 	if err != nil {
@@ -404,8 +404,17 @@ func integerAttribute(attr string, minimum int) int {
 	if intValue < minimum {
 		intValue = minimum
 	}
+	if intValue > maximum {
+		intValue = maximum
+	}
 	return intValue
 }
+
+// limits of the HTML specification for the span, colspan and rowspan attributes
+const (
+	maxColspan = 1000
+	maxRowspan = 65534
+)
 
 func NewTableCellBox(style pr.ElementStyle, element *html.Node, pseudoType string, children []Box) *TableCellBox {
 	out := TableCellBox{BoxFields: newBoxFields(style, element, pseudoType, children)}
@@ -416,8 +425,8 @@ func NewTableCellBox(style pr.ElementStyle, element *html.Node, pseudoType strin
 	// but HTML 5 removed it
 	// http://www.w3.org/TR/html5/tabular-data.html#attr-tdth-colspan
 	// rowspan=0 is still there though.
-	out.Colspan = integerAttribute(utils.HTMLNode(*element).Get("colspan"), 1)
-	out.Rowspan = integerAttribute(utils.HTMLNode(*element).Get("rowspan"), 0)
+	out.Colspan = integerAttribute(utils.HTMLNode(*element).Get("colspan"), 1, maxColspan)
+	out.Rowspan = integerAttribute(utils.HTMLNode(*element).Get("rowspan"), 0, maxRowspan)
 	return &out
 }
 
